@@ -1069,6 +1069,7 @@ template <class F> static void all_seqs(size_t alpha, size_t maxlen, F f)
     }
 }
 
+__attribute__((optimize("O0"))) // the generator is the largest function of this file: compile time matters, its run time (1 s) does not
 static void gen(rng &r, const std::string &tier)
 {
     bool th = tier == "thorough";
@@ -1527,8 +1528,8 @@ static void gen(rng &r, const std::string &tier)
                                {"V(V(u8))", "ffffffff0102030405060708"}, {"M(str,i32)", "ffffffff"}, {"V(S(u8,i32,i16))", "ff7f"}, {"buf", "ffff0102"},
                                {"V(P(i8,i32))", "ffff01"}, {"M(u16,V(u8))", "ffff0100ffff"}};
         for (auto &h : ha) printf("da %s %s\n", h[0], h[1]);
-        const char *hs[][2] = {{"V(u8)", "ffff"}, {"V(V(u8))", "ffffffff"}, {"V(V(V(u16)))", "ffffffffffff"}, {"V(S(u8,u8,u32))", "ffff"},
-                               {"V(u32)", "05000102030405"}, {"V(V(u8))", "ffffffff0102030405060708"}, {"V(S(V(u8),u16,V(u16)))", "ffffffff"}, {"V(u64)", "ff"}};
+        const char *hs[][2] = {{"V(u8)", "ffff"}, {"V(V(u8))", "ffffffff"}, {"V(V(V(u16)))", "ffffffffffff"}, {"V(S(u8,u8,u32))", "ff3f"},
+                               {"V(u32)", "05000102030405"}, {"V(V(u8))", "ffffffff0102030405060708"}, {"V(S(V(u8),u16,V(u16)))", "ff1fffff"}, {"V(u64)", "ff"}};
         for (auto &h : hs) printf("ds %s %s\n", h[0], h[1]);
         for (int i = 0; i < (th ? 300 : 20); i++)
         {
@@ -1539,7 +1540,7 @@ static void gen(rng &r, const std::string &tier)
             size_t n = 2 + r.below(10);
             bytes b(n);
             for (auto &x : b) x = r.chance(50) ? 0xff : r.chance(50) ? (uint8_t)r.below(4) : (uint8_t)r.next();
-            b[1] = r.chance(70) ? (uint8_t)r.below(64) : 0xff; // outer count up to 65535, mostly <= 16383: the line stays readable
+            b[1] = r.chance(70) ? (uint8_t)r.below(64) : (a ? 0xff : 0x7f); // outer count up to 65535 (archive) / 32767 (serializer stack), mostly <= 16383
             printf("d%c %s %s\n", a ? 'a' : 's', d, hex(b).c_str());
         }
     }
